@@ -10,6 +10,7 @@ from dimarray.compat.pycompat import dictkeys, dictvalues
 
 from .core import DimArray, array, Axis, Axes
 from .core import align as align_axes, stack, concatenate
+from .core.indexing import locate_many
 from .core.align import _check_stack_args, _get_axes, stack, concatenate, _check_stack_axis, get_dims as _get_dims, reindex_like
 from .core.transform import interp_like, _interp_internal_from_weight, _interp_internal_get_weights, _interp_internal_maybe_sort
 from .core import pandas_obj
@@ -724,9 +725,13 @@ class Dataset(AbstractDataset, dict, OpMixin, GetSetDelAttrMixin):
             dataset.attrs.update(self.attrs)
             return dataset
 
-        # take axis, do not raise error
-        dataset = self.take_axis(values, axis=axis, indexing='label', 
-                                 mode='raise' if raise_error else 'clip')
+        # positions of the requested labels (or of the closest following label), found like
+        # DimArray.reindex_axis does: a tolerance attached to the axis plays no role here
+        indices = locate_many(ax.values, values, side='left')
+        notfound = ax.values.take(indices) != values
+        if raise_error and np.any(notfound):
+            raise IndexError("Some values where not found in the axis ({}): {}".format(ax.name, values[notfound]))
+        dataset = self.take_axis(indices, axis=axis, indexing='position')
 
         # Replace mismatch with missing values?
         newax = dataset.axes[axis]
